@@ -147,6 +147,15 @@ def check_builder(W, rec, rng):
             if list(r2.args.items(multi=True)) != exp2 or r2.path != r.path:
                 rec.violation("C15/builder-reused-args-not-recovered", f"second request of the same builder: args {list(r2.args.items(multi=True))!r}, the builder holds {exp2!r}", case, monitor="identity")
                 return
+            # ... and after its path / script root attributes were re-bound to plain (unquoted, non-ASCII) text
+            newpath = "/neu " + rng.choice(["é", "☃", "ü/ä", "\u20ac"]) + "/x"
+            newroot = rng.choice(["", "/wurzel ö"])
+            b.path, b.script_root = newpath, newroot
+            r4 = b.get_request(Request)
+            rec.observe("builder_attributes_rebound")
+            if r4.path != newpath or r4.root_path != newroot:
+                rec.violation("C15/builder-path-not-recovered", f"builder.path = {newpath!r}, script_root = {newroot!r} -> Request.path {r4.path!r}, root_path {r4.root_path!r}", case, monitor="identity")
+                return
         finally:
             b.close()
         if "%" not in path and "%" not in root:
@@ -212,6 +221,9 @@ def check_dispatcher(W, rec, idx, of):
             def mk_app(name):
                 def app(env, sr):
                     seen["r"] = (name, env["SCRIPT_NAME"], env["PATH_INFO"])
+                    if "wsgi.url_scheme" in env:
+                        # what the mounted application reconstructs from the environ it was handed
+                        seen["url"] = (W["wsgi_get_current_url"](env), W["Request"](env).url)
                     return []
 
                 return app
@@ -228,6 +240,12 @@ def check_dispatcher(W, rec, idx, of):
                                 rec.nontrivial(("d", mk, p, sn))
                             case = {"family": "dispatcher", "mounts": list(mk), "path": p, "script_name": sn}
                             env = {"PATH_INFO": p, "SCRIPT_NAME": sn}
+                            full = (len(parts) + len(mk) + len(sn)) % 3 == 0
+                            if full:
+                                env.update({"wsgi.url_scheme": "http", "HTTP_HOST": "h.example", "SERVER_NAME": "h.example", "SERVER_PORT": "80", "REQUEST_METHOD": "GET",
+                                            "QUERY_STRING": "q=1&x=%C3%A9"})
+                                before = W["wsgi_get_current_url"](dict(env))
+                            seen.pop("url", None)
                             try:
                                 d(env, None)
                             except Exception as ex:  # noqa: BLE001
@@ -242,6 +260,15 @@ def check_dispatcher(W, rec, idx, of):
                                 rec.violation("C15/dispatcher-script-plus-path-changed", f"{s!r}+{pi!r} != {sn!r}+{p!r}; {case}", case, monitor="dispatcher-reference")
                             elif exp != "default" and s != sn + exp:
                                 rec.violation("C15/dispatcher-script-name-wrong", f"{s!r}; {case}", case, monitor="dispatcher-reference")
+                            elif full and "url" in seen:
+                                rec.observe("dispatcher_urls_reconstructed")
+                                inner_env_url, inner_req_url = seen["url"]
+                                bu, iu = urlsplit(before), urlsplit(inner_env_url)
+                                # dispatching does not change which URL was requested (an exact mount hit may gain its slash)
+                                if iu.query != bu.query or iu.netloc != bu.netloc or iu.path.rstrip("/") != bu.path.rstrip("/"):
+                                    rec.violation("C15/dispatcher-changes-the-reconstructed-url", f"before dispatch {before!r}, inside the mounted app {inner_env_url!r}; {case}", case, monitor="identity")
+                                elif inner_env_url != inner_req_url:
+                                    rec.violation("C15/wsgi-get_current_url-differs-from-request", f"inside the mounted app: wsgi.get_current_url {inner_env_url!r}, Request.url {inner_req_url!r}; {case}", case, monitor="identity")
 
 
 def world():
@@ -252,7 +279,7 @@ def world():
     from werkzeug.wrappers import Request
 
     return {"iri_to_uri": urls.iri_to_uri, "uri_to_iri": urls.uri_to_iri, "MultiDict": MultiDict, "DispatcherMiddleware": DispatcherMiddleware,
-            "EnvironBuilder": EnvironBuilder, "Request": Request, "urls": urls}
+            "EnvironBuilder": EnvironBuilder, "Request": Request, "urls": urls, "wsgi_get_current_url": __import__("werkzeug.wsgi", fromlist=["get_current_url"]).get_current_url}
 
 
 def run(shard, rec, rng):
